@@ -625,3 +625,11 @@ fn matches() {
 
     assert_eq!(reconstructed, original_data);
 }
+
+#[cfg(feature = "verif_hooks")]
+impl MatchGeneratorDriver {
+    /// Public constructor for the verification harness (the real one is crate-private).
+    pub fn verif_new(slice_size: usize, max_slices_in_window: usize) -> Self {
+        Self::new(slice_size, max_slices_in_window)
+    }
+}
